@@ -27,6 +27,7 @@ def _walk_worker(args):
     """thorough tier: one worker = its own driver, PRNG stream and share of the generated worlds"""
     prop, wseed, ngen, walks, steps, shipped = args
     rng = random.Random(wseed)
+    CW.SYNC_ON_DIFF = prop != "C02"
     S = CW.Stats()
     fails = []
     drv = Driver()
@@ -70,6 +71,7 @@ def main(prop, tier, replay=None):
         else:
             fails_other[p] = fails_other.get(p, 0) + 1
 
+    CW.SYNC_ON_DIFF = prop != "C02"
     if info.get("build_ok"):
         rng = random.Random(1000003 * seed() + {"C02": 2, "C03": 3, "C08": 8, "C11": 11, "C12": 12}[prop])
         drv = Driver()
@@ -106,6 +108,19 @@ def main(prop, tier, replay=None):
                 CC.run_sessions(drv, rng, info["tables"]["defender"], cfail8, coord_stats, 60 if quick else 600, 45,
                                 {"burst": 0.15, "leave": 0.10, "bad": 0.02, "early_reset": 0.08})
                 CC.directed_sessions(drv, rng, info["tables"]["defender"], cfail8, coord_stats, 24 if quick else 400)
+            if prop in ("C02", "C03") and info.get("tables"):
+                # coordinator level: the same comparison on the path the agents really use (message -> coordinator -> world):
+                # the view the coordinator holds after a game action = the proved effect on (held view, action, shared tables)
+                from . import check_coord as CC
+
+                def cfail23(tags, sig, desc, rep):
+                    if prop in tags:
+                        V.fail("coord:" + sig, desc, rep)
+                    else:
+                        for t in tags:
+                            fails_other[t] = fails_other.get(t, 0) + 1
+                CC.run_sessions(drv, rng, info["tables"]["defender"], cfail23, coord_stats, 40 if quick else 400, 45,
+                                {"burst": 0.0, "leave": 0.03, "bad": 0.01, "roles": ["Attacker", "Attacker", "Defender"]})
             if prop == "C11" and info.get("tables"):
                 # coordinator level: the views agents are actually SENT (start of every episode, static and dynamic addresses,
                 # 'all_local' / 'random' start positions) list only hosts that exist and everything the start position lists
@@ -146,7 +161,7 @@ def main(prop, tier, replay=None):
            "pre_true": S.pre_true, "pre_false": S.pre_false, "raised": S.raised, "scenario_loads": S.loads, "resets": S.resets,
            "single_false_guard_histogram": {f"{k[0]}#{k[1]}": v for k, v in sorted(S.guard_only_false.items())},
            "earlier_view_recomparisons": S.snap_checks, "directed_interference_probes": S.directed_interference, "post_reset_readonly_probes": S.post_reset_probes,
-           "coordinator_session_events": coord_stats.get("events", 0), "directed_coordinator_sessions": coord_stats.get("directed_sessions", 0),
+           "coordinator_session_events": coord_stats.get("events", 0), "directed_coordinator_sessions": coord_stats.get("directed_sessions", 0), "coordinator_world_bridge_steps": coord_stats.get("world_bridge_steps", 0),
            "out_of_scope_disagreements": fails_other, "proof_failures": V.proof_failures}
     write_evidence(prop, tier, "proof", cov, T.s(), nviol,
                    ["one read = one client message is irrelevant here: world-level check calls _execute_action directly",
